@@ -29,7 +29,7 @@ demo() {  # prints exit status of the demonstration
 }
 git apply $SD/patch.diff >> $LOG 2>&1 || { echo "$SD: PATCH DOES NOT APPLY"; exit 1; }
 cargo test $PK --offline -j 8 --no-fail-fast > $SD/tests_with_patch.log 2>&1; TRC=$?
-FAILED=$(grep -E "^test .* FAILED" $SD/tests_with_patch.log | grep -v "probe_info_description\|tests::progress" | head -5 | tr '\n' ';')
+FAILED=$(grep -E "^test .* FAILED" $SD/tests_with_patch.log | grep -v "probe_info_description\|tests::progress\|^test result" | head -5 | tr '\n' ';')
 echo "== existing tests with patch: rc $TRC; failures other than the known wall-clock flakes: [$FAILED]" >> $LOG
 WITH=$(demo)
 echo "== demo with patch: exit $WITH" >> $LOG
